@@ -821,9 +821,31 @@ func RSub(a, b *Term) *Term {
 	return realBin("-", a, b, func(x, y *big.Rat) *big.Rat { return new(big.Rat).Sub(x, y) })
 }
 func RMul(a, b *Term) *Term {
+	if a.IsConst() && !b.IsConst() {
+		a, b = b, a
+	}
+	if b.IsConst() && !a.IsConst() {
+		if b.R.Cmp(big.NewRat(1, 1)) == 0 {
+			return a
+		}
+		if b.R.Sign() == 0 {
+			return b
+		}
+		// (x*c1)*c2 = x*(c1*c2)
+		if a.Op == "*" && len(a.Args) == 2 && a.Sort.K == KReal && a.Args[1].IsConst() {
+			return RMul(a.Args[0], RealC(new(big.Rat).Mul(a.Args[1].R, b.R)))
+		}
+	}
 	return realBin("*", a, b, func(x, y *big.Rat) *big.Rat { return new(big.Rat).Mul(x, y) })
 }
 func RDiv(a, b *Term) *Term {
+	if b.IsConst() && b.R.Cmp(big.NewRat(1, 1)) == 0 {
+		return a
+	}
+	if b.IsConst() && b.R.Sign() != 0 && !a.IsConst() {
+		// division by a constant is multiplication by its inverse (keeps the query linear)
+		return RMul(a, RealC(new(big.Rat).Inv(b.R)))
+	}
 	return realBin("/", a, b, func(x, y *big.Rat) *big.Rat {
 		if y.Sign() == 0 {
 			return nil
